@@ -87,3 +87,44 @@ Proof.
                 (g_hwt_has_code_built w seq tab t Hw HF Hn Hne Ht E))).
 Qed.
 Print Assumptions C03_source_hwt_unchecked.
+
+(* ---- the CONSTRUCTOR of the plain binary tree REGENERATED from src/binwt/mod.rs on every run (T5, Gen/FnsWtnew.v:
+   WaveletTree::<T, RSWide, false>::new as it is written: max, msb, one BitVectorMut per level filled by push, BitVector::from,
+   RSWide::from, stable_partition_of_2, the levels kept as one list per field of RSWide), with everything it calls regenerated
+   too (g_msb, g_stable_partition_of_2, g_bvm_push, g_rsw_new): it returns exactly the fields of the tree the hand-modelled
+   builder constructs (and a permutation of the input slice), so the regenerated constructor followed by the regenerated
+   queries is the list specification: no hand-model function in the conclusion of [C03_source_wt_new_correct]. *)
+From QwtModel Require Import FnsUtils FnsBvm FnsWtnew FnsWtNewOk.
+From Coq Require Import Permutation.
+Theorem C03_source_wt_new : forall wT seq t,
+  (wT = 8 \/ wT = 16 \/ wT = 32 \/ wT = 64 \/ wT = 128) -> Forall (fun x => x < 2 ^ wT) seq ->
+  len seq < 2 ^ 43 -> wt_build wT false seq [] = Val t ->
+  exists seq', Permutation seq seq' /\
+    g_wt_new wT seq =
+    Val (seq', (w_n t, w_n_levels t, w_sigma t, None, None, None,
+                wt_data t, wt_nbits t, map (fun r => bv_nones (rsw_bv r)) (w_bvs t),
+                wt_meta t, wt_samples t, wt_nzeros t, w_lens t)).
+Proof. exact g_wt_new_sim_closed. Qed.
+Print Assumptions C03_source_wt_new.
+Theorem C03_source_wt_new_correct : forall w seq,
+  (w = 8 \/ w = 16 \/ w = 32 \/ w = 64 \/ w = 128) -> Forall (fun x => x < 2 ^ w) seq ->
+  len seq < RSQBuild.RSQ_MAXN ->
+  exists seq' n nl sg data nbits nones meta samples nzeros lens,
+    Permutation seq seq' /\
+    g_wt_new w seq = Val (seq', (n, nl, sg, None, None, None, data, nbits, nones, meta, samples, nzeros, lens)) /\
+    g_wt_len n = Val (len seq) /\ g_wt_is_empty n = Val (len seq =? 0) /\
+    g_wt_n_levels nl = Val (if len seq =? 0 then 0 else msb (maxN seq) + 1) /\
+    (forall i, g_wt_get w n nl data meta nzeros i = Val (nthN seq i)) /\
+    (forall i x, nthN seq i = Some x -> g_wt_get_unchecked w nl data meta nzeros i = Val x) /\
+    (forall c i, c < 2 ^ w ->
+       g_wt_rank w n nl sg data meta nzeros c i
+       = Val (if negb (len seq =? 0) && (i <=? len seq) && (c <=? maxN seq) then Some (rank_spec seq c i) else None)) /\
+    (forall c i, 0 < len seq -> c <= maxN seq -> i <= len seq ->
+       g_wt_rank_unchecked w nl data meta nzeros c i = Val (rank_spec seq c i)) /\
+    (forall c k fuel, c < 2 ^ w -> k < 2 ^ 64 -> (N.to_nat (len seq / 4096) + 3 <= fuel)%nat ->
+       g_wt_select fuel w n nl sg data nbits meta samples nzeros c k
+       = Val (if negb (len seq =? 0) && (c <=? maxN seq) then select_spec seq c k else None)) /\
+    (forall c k p fuel, c < 2 ^ w -> select_spec seq c k = Some p -> (N.to_nat (len seq / 4096) + 3 <= fuel)%nat ->
+       g_wt_select_unchecked fuel w n nl sg data nbits meta samples nzeros c k = Val p).
+Proof. exact g_wt_new_correct_closed. Qed.
+Print Assumptions C03_source_wt_new_correct.
